@@ -89,6 +89,55 @@ def Op.operand : Op → Nat × Nat
   | .newArrayT | .isType | .convert => (0, 1)
   | _ => (0, 0)
 
+/-- the mnemonic (as `opcode.Opcode.String()` prints it): used to cross-check the decoding table
+against the table regenerated from the Go source. -/
+def Op.name : Op → String
+  | .pushInt k => (["PUSHINT8", "PUSHINT16", "PUSHINT32", "PUSHINT64", "PUSHINT128", "PUSHINT256"])[k]?.getD "?"
+  | .pushT => "PUSHT" | .pushF => "PUSHF" | .pushA => "PUSHA" | .pushNull => "PUSHNULL"
+  | .pushData k => if k = 1 then "PUSHDATA1" else if k = 2 then "PUSHDATA2" else if k = 4 then "PUSHDATA4" else "?"
+  | .pushConst n =>
+    if n < 0 then "PUSHM1"
+    else (["PUSH0", "PUSH1", "PUSH2", "PUSH3", "PUSH4", "PUSH5", "PUSH6", "PUSH7", "PUSH8", "PUSH9", "PUSH10",
+           "PUSH11", "PUSH12", "PUSH13", "PUSH14", "PUSH15", "PUSH16"])[n.toNat]?.getD "?"
+  | .nop => "NOP"
+  | .jmp c long =>
+    let b := match c with
+      | .always => "JMP" | .ifTrue => "JMPIF" | .ifFalse => "JMPIFNOT" | .eq => "JMPEQ" | .ne => "JMPNE"
+      | .gt => "JMPGT" | .ge => "JMPGE" | .lt => "JMPLT" | .le => "JMPLE"
+    if long then b ++ "_L" else b
+  | .call long => if long then "CALL_L" else "CALL"
+  | .callA => "CALLA" | .callT => "CALLT"
+  | .abort => "ABORT" | .assert => "ASSERT" | .throw => "THROW"
+  | .try_ long => if long then "TRY_L" else "TRY"
+  | .endTry long => if long then "ENDTRY_L" else "ENDTRY"
+  | .endFinally => "ENDFINALLY" | .ret => "RET" | .syscall => "SYSCALL"
+  | .depth => "DEPTH" | .drop => "DROP" | .nip => "NIP" | .xdrop => "XDROP" | .clear => "CLEAR"
+  | .dup => "DUP" | .over => "OVER" | .pick => "PICK" | .tuck => "TUCK" | .swap => "SWAP"
+  | .rot => "ROT" | .roll => "ROLL" | .reverse3 => "REVERSE3" | .reverse4 => "REVERSE4"
+  | .reverseN => "REVERSEN" | .initSSlot => "INITSSLOT" | .initSlot => "INITSLOT"
+  | .ld k i =>
+    let b := match k with | .static => "LDSFLD" | .local_ => "LDLOC" | .arg => "LDARG"
+    match i with | some n => b ++ (["0", "1", "2", "3", "4", "5", "6"])[n]?.getD "?" | none => b
+  | .st k i =>
+    let b := match k with | .static => "STSFLD" | .local_ => "STLOC" | .arg => "STARG"
+    match i with | some n => b ++ (["0", "1", "2", "3", "4", "5", "6"])[n]?.getD "?" | none => b
+  | .newBuffer => "NEWBUFFER" | .memcpy => "MEMCPY" | .cat => "CAT" | .substr => "SUBSTR"
+  | .left => "LEFT" | .right => "RIGHT" | .invert => "INVERT" | .and => "AND" | .or => "OR"
+  | .xor => "XOR" | .equal => "EQUAL" | .notEqual => "NOTEQUAL" | .sign => "SIGN" | .abs => "ABS"
+  | .negate => "NEGATE" | .inc => "INC" | .dec => "DEC" | .add => "ADD" | .sub => "SUB"
+  | .mul => "MUL" | .div => "DIV" | .mod => "MOD" | .pow => "POW" | .sqrt => "SQRT"
+  | .modMul => "MODMUL" | .modPow => "MODPOW" | .shl => "SHL" | .shr => "SHR" | .not => "NOT"
+  | .boolAnd => "BOOLAND" | .boolOr => "BOOLOR" | .nz => "NZ" | .numEqual => "NUMEQUAL"
+  | .numNotEqual => "NUMNOTEQUAL" | .lt => "LT" | .le => "LE" | .gt => "GT" | .ge => "GE"
+  | .min => "MIN" | .max => "MAX" | .within => "WITHIN" | .packMap => "PACKMAP"
+  | .packStruct => "PACKSTRUCT" | .pack => "PACK" | .unpack => "UNPACK" | .newArray0 => "NEWARRAY0"
+  | .newArray => "NEWARRAY" | .newArrayT => "NEWARRAY_T" | .newStruct0 => "NEWSTRUCT0"
+  | .newStruct => "NEWSTRUCT" | .newMap => "NEWMAP" | .size => "SIZE" | .hasKey => "HASKEY"
+  | .keys => "KEYS" | .values => "VALUES" | .pickItem => "PICKITEM" | .append => "APPEND"
+  | .setItem => "SETITEM" | .reverseItems => "REVERSEITEMS" | .remove => "REMOVE"
+  | .clearItems => "CLEARITEMS" | .popItem => "POPITEM" | .isNull => "ISNULL" | .isType => "ISTYPE"
+  | .convert => "CONVERT" | .abortMsg => "ABORTMSG" | .assertMsg => "ASSERTMSG"
+
 /-- unsigned little-endian value. -/
 def leNat : Bytes → Nat
   | [] => 0
